@@ -28,7 +28,7 @@ META = {
              "poly call, insert_*}"),
     "required": ["monitor:validator", "monitor:validator-selftest", "monitor:package-route",
                  "monitor:repo-tests-through-shim"] + [f"root:{k}" for k in
-                                                       ("module", "dfg", "func", "cfg", "cond", "loop")]
+                                                       ("module", "dfg", "func", "cfg", "cond", "loop", "tracked")]
     + FEATS + [f"selftest:{r}" for r in RULES],
     "reach": ["hugr.build.dfg:DfBase._wire_up_port", "hugr.build.dfg:_ancestral_sibling",
               "hugr.build.cfg:Block._wire_up_port", "hugr.build.dfg:DfBase.set_outputs",
@@ -108,6 +108,77 @@ def check_program(ctx, p, stratum="program"):
         if d1 != d2:
             ctx.disc(None, "package-route-differs", "modules[0]", "same document as to_json()",
                      "different", stratum=stratum, case=p)
+    return len(doc["nodes"])
+
+
+# ------------------------------------------------------------------------------------ tracked builder
+def gen_tracked(r):
+    """script for a TrackedDfg root that keeps the linearity discipline: every qubit is tracked, ops take
+    tracked indices (and sometimes explicit copyable wires placed *before* an index), outputs are the
+    tracked wires"""
+    width = r.randint(1, 5)
+    tys_ = [r.choice("qqb") for _ in range(width)]
+    steps = []
+    tracked = list(tys_)          # type at each index
+    for _ in range(r.randint(2, 10)):
+        qs = [i for i, t in enumerate(tracked) if t == "q"]
+        bs = [i for i, t in enumerate(tracked) if t == "b"]
+        k = r.choice(["H", "CX", "Measure", "Not", "SwapW", "SwapI", "CCX", "Fan3"])
+        if k == "H" and qs:
+            steps.append(["H", [r.choice(qs)]])
+        elif k == "CX" and len(qs) >= 2:
+            steps.append(["CX", r.sample(qs, 2)])
+        elif k == "CCX" and len(qs) >= 3:
+            steps.append(["CCX", r.sample(qs, 3)])
+        elif k == "Measure" and qs:
+            steps.append(["Measure", [r.choice(qs)]])          # out(1): Bool, left unused (copyable)
+        elif k == "Not" and bs:
+            steps.append(["Not", [r.choice(bs)]])
+        elif k == "Fan3" and bs:
+            steps.append(["Fan3", [r.choice(bs)]])
+        elif k == "SwapI" and qs and bs:
+            b, q = r.choice(bs), r.choice(qs)
+            steps.append(["Swap", [b, q]])                     # [Bool, Q] -> [Q, Bool]: the indices swap types
+            tracked[b], tracked[q] = "q", "b"
+        elif k == "SwapW" and qs and bs:
+            # explicit Bool wire (current wire of a tracked Bool index) before a tracked qubit index:
+            # index q is rebound to output 1 (a Bool); output 0 (the qubit) is tracked anew
+            b, q = r.choice(bs), r.choice(qs)
+            steps.append(["SwapWire", [b, q]])
+            tracked[q] = "b"
+            tracked.append("q")
+    return {"tys": tys_, "steps": steps}
+
+
+def check_tracked(ctx, sc, stratum="tracked"):
+    from hugr import tys
+    from hugr.build import TrackedDfg
+    from hugr.std.logic import Not
+    from vf import hx
+    from vf.oracles import validator
+    from vf.oracles.extops import check_ext
+
+    T = {"q": tys.Qubit, "b": tys.Bool}
+    td = TrackedDfg(*[T[t] for t in sc["tys"]], track_inputs=True)
+    for name, args in sc["steps"]:
+        if name == "SwapWire":
+            b, q = args
+            n = td.add(hx.ext_op("Swap")(td.tracked_wire(b), q))
+            td.track_wire(n.out(0))
+        elif name == "Not":
+            td.add(Not(*args))
+        else:
+            td.add(hx.ext_op(name)(*args))
+    td.set_tracked_outputs()
+    doc = json.loads(td.hugr.to_json())
+    ctx.count("monitor:validator")
+    ctx.count("root:tracked")
+    seen = set()
+    for x in validator.validate(doc, check_ext):
+        if x["rule"] not in seen:
+            seen.add(x["rule"])
+            ctx.disc(None, x["rule"], {"node": x["node"]}, "valid under " + x["rule"], x["detail"],
+                     stratum=stratum, case=sc)
     return len(doc["nodes"])
 
 
@@ -351,6 +422,11 @@ def run(ctx):
         ctx.guard("selftest", None, selftest, ctx)
     if ctx.shard == 1 % ctx.nshards:
         ctx.guard("repo-test", None, repo_tests, ctx)
+    for i in ctx.mine(ctx.n(300, 10000)):
+        r = ctx.rng("tracked", i)
+        sc = gen_tracked(r)
+        nn = ctx.guard("tracked", sc, check_tracked, ctx, sc)
+        ctx.case("tracked", sc, nn is not None and nn >= 6 and any(s_[0] == "SwapWire" for s_ in sc["steps"]))
     n = ctx.n(1500, 40000)
     for i in ctx.mine(n):
         r = ctx.rng("program", i)
@@ -364,6 +440,9 @@ def run(ctx):
 
 def replay(ctx, rec):
     case = rec.get("case")
+    if rec.get("stratum") == "tracked":
+        check_tracked(ctx, case)
+        return
     if rec.get("stratum") == "repo-test":
         from vf.oracles import validator
         from vf.oracles.extops import check_ext
